@@ -10,7 +10,11 @@ BASE_NOTE = ("Trusted: Lean 4.33 kernel + Mathlib v4.33 (axioms audited per theo
              "Classical.choice, Quot.sound; no native_decide/bv_decide/sorry); the hand-written executable model's "
              "fidelity to the Python, which is checked on every run by differential execution (driver vs lightworks "
              "imported from /repo's working tree) and bounded by generator coverage reported in the evidence file; "
-             "float evaluation of sqrt/trig/exp up to rounding (1e-9 tolerance). ")
+             "float evaluation of sqrt/trig/exp up to rounding (1e-9 tolerance). Every check runs a fixed directed corpus "
+             "and seeded random streams that include histories on long-lived objects, components shared between "
+             "consumers, every accepted call form and boundary values (DESIGN 13.7); when /repo's working tree differs "
+             "from the pinned sources (harness/pinned_sources.json) the quick tier runs further passes with fresh "
+             "random streams (never an alarm by itself). ")
 
 CLAIMED = {
     "C01": dict(
